@@ -2,6 +2,7 @@ package main
 
 import (
 	"fmt"
+	"strconv"
 	"strings"
 
 	"go.dedis.ch/kyber/v4"
@@ -366,11 +367,15 @@ type c10scn struct {
 	faults  []string
 	behav   []string
 	justs   map[int]string
+	prelude map[int]string // per verifier: a deal the code refuses with an error, delivered before the verifier's deal proper
 	tpos    int // position of the timeout in the event list (-1: none)
 	seedIdx int
 }
 
 func (s *c10scn) String() string {
+	if len(s.prelude) > 0 {
+		return fmt.Sprintf("%s n=%d t=%d prelude=%v deals=%v resp=%v just=%v timeout@%d", s.v.name, s.n, s.t, s.prelude, s.faults, s.behav, s.justs, s.tpos)
+	}
 	return fmt.Sprintf("%s n=%d t=%d deals=%v resp=%v just=%v timeout@%d", s.v.name, s.n, s.t, s.faults, s.behav, s.justs, s.tpos)
 }
 
@@ -416,6 +421,46 @@ func c10(r *mon.R) {
 			}
 		}
 	}
+	// (1b) a refused deal first, then the deal proper, on the same verifier object
+	for _, v := range variants {
+		for _, n := range ns {
+			for t := 2; t <= n; t++ {
+				var pks []string
+				for _, b := range []string{"wrong-index", "other-dealer-wrong-index"} {
+					pks = append(pks, b)
+					for _, tp := range []int{0, 1, 2, n, n + 1} {
+						if tp != t {
+							pks = append(pks, fmt.Sprintf("%s+t=%d", b, tp))
+						}
+					}
+				}
+				pks = append(pks, "wrong-recipient", "forged-sig", "cipher-flip", "dh-tampered", "garbage-plaintext")
+				for pi, pk := range pks {
+					for pos := 0; pos < n; pos++ {
+						if n > 4 && (pos+pi)%2 == 1 {
+							continue
+						}
+						// all others honest; then: everybody approves / only t-1 others are heard before the timeout
+						for _, absent := range []int{0, n - t, n - t + 1} {
+							if absent > n-1 {
+								continue
+							}
+							bs := c10fill(n, "as-is")
+							for k, left := 1, absent; left > 0 && k < n; k++ {
+								bs[(pos+k)%n] = "absent"
+								left--
+							}
+							for _, f := range []string{"honest", "bad-share"} {
+								fs := c10fill(n, "honest")
+								fs[pos] = f
+								scns = append(scns, &c10scn{v: v, n: n, t: t, faults: fs, behav: bs, justs: map[int]string{pos: "correct"}, prelude: map[int]string{pos: pk}, tpos: []int{1, 2}[(pos+pi)%2]})
+							}
+						}
+					}
+				}
+			}
+		}
+	}
 	// (2) sampled multi-fault histories
 	nSample := r.N(1200, 24000)
 	for i := 0; i < nSample; i++ {
@@ -433,6 +478,12 @@ func c10(r *mon.R) {
 			}
 			if rng.IntN(2) == 0 {
 				s.justs[k] = gen.Pick(rng, c10justKinds)
+			}
+			if i%3 == 2 && rng.IntN(3) == 0 {
+				if s.prelude == nil {
+					s.prelude = map[int]string{}
+				}
+				s.prelude[k] = gen.Pick(rng, []string{"wrong-index", "wrong-index+t=1", "wrong-index+t=2", fmt.Sprintf("wrong-index+t=%d", n), "other-dealer-wrong-index+t=2", "wrong-recipient", "forged-sig", "garbage-plaintext"})
 			}
 		}
 		scns = append(scns, s)
@@ -522,6 +573,68 @@ func c10run(r *mon.R, s *c10scn, scnIdx int) {
 			d := v.cloneDeal(suite, dealer.plaintext(i))
 			mut(d)
 			enc, e = dealer.sealStruct(i, d)
+		}
+		if pk := s.prelude[i]; pk != "" {
+			// a deal that is refused with an error (no response) must leave nothing behind: the deal proper is then judged
+			// exactly as without the prelude. If the code answers the prelude with a response, the prelude is this verifier's deal.
+			nontriv = true
+			base, tp := pk, -1
+			if k := strings.Index(pk, "+t="); k >= 0 {
+				base = pk[:k]
+				tp, _ = strconv.Atoi(pk[k+3:])
+			}
+			var penc any
+			var pe error
+			switch base {
+			case "wrong-index":
+				j := (i + 1 + rng.IntN(n-1)) % n
+				d := v.cloneDeal(suite, dealer.plaintext(j))
+				if tp >= 0 {
+					v.dealSetT(d, uint32(tp))
+				}
+				penc, pe = dealer.sealStruct(i, d)
+			case "wrong-recipient":
+				penc, pe = dealer.honestEnc((i + 1) % n)
+			case "forged-sig", "cipher-flip", "dh-tampered":
+				penc, pe = dealer.honestEnc(i)
+				penc = dealer.tamperEnc(penc, map[string]string{"forged-sig": "sig", "cipher-flip": "cipher", "dh-tampered": "dh"}[base])
+			case "garbage-plaintext":
+				penc, pe = dealer.sealBytes(i, rng.Bytes(rng.IntN(200)))
+			case "other-dealer-wrong-index":
+				j := (i + 1 + rng.IntN(n-1)) % n
+				d := v.cloneDeal(suite, dealer2.plaintext(j))
+				if tp >= 0 {
+					v.dealSetT(d, uint32(tp))
+				}
+				penc, pe = dealer.sealStruct(i, d)
+			default:
+				panic("unknown prelude " + pk)
+			}
+			if pe != nil {
+				viol("harness/seal-failed/prelude-"+pk, "harness could not seal the prelude deal: "+pe.Error(), nil)
+				return
+			}
+			var presp any
+			okp := r.Guard("C10/"+v.name+"/ProcessEncryptedDeal/prelude-"+base, det(map[string]any{"verifier": i}), func() { presp, _ = verifiers[i].processDeal(penc) })
+			r.Eval("deal/prelude-"+base, fmt.Sprintf("%s|%d|%d|%d|%s|%s", v.name, n, t, i, pk, f), true)
+			if !okp {
+				continue
+			}
+			if presp != nil {
+				_, ap := v.respInfo(presp)
+				if ap {
+					viol("ProcessEncryptedDeal/approved-bad-deal/prelude-"+base, "verifier approved a deal the harness built to be invalid ("+pk+")", map[string]any{"verifier": i})
+				}
+				// answered with a complaint: legitimate; this verifier has now spent its one deal on the prelude
+				r.NoteAdd("C10/prelude-answered-with-complaint/"+v.name+"/"+base, 1)
+				codeResp[i] = presp
+				codeApproved[i] = ap
+				if base == "other-dealer-wrong-index" {
+					commitClass[i] = "other-polynomial"
+				}
+				continue
+			}
+			r.NoteAdd("C10/prelude-refused-with-error/"+v.name+"/"+base, 1)
 		}
 		switch f {
 		case "honest", "replayed":
